@@ -19,6 +19,23 @@ delivered, our version and verack written, and the remote's verack read and deli
 theorem no_delivery_before_handshake (c : Cfg) (ts : List Tok) :
     NoDeliveryBeforeHandshake c (run c ts).2 := HsLemmas.run_noDelivery c ts
 
+/-- The same over the BIP324 transport (both sides v2), and on an inbound v2 peer that was
+downgraded by a v1 remote (that run IS a v1 run, see `Model.runV2dgIn`). -/
+theorem no_delivery_before_handshake_v2 (c : Cfg) (ts : List Tok) :
+    NoDeliveryBeforeHandshake c (runV2 c ts).2 := HsLemmas.runV2_noDelivery c ts
+
+/-- An inbound v2 peer whose v1 remote does not open with a well-formed `version` delivers
+nothing at all (it either answers with its v2 key or sees an empty stream). -/
+theorem v2_inbound_nonversion_delivers_nothing (c : Cfg) (ts : List Tok)
+    (h : ∀ v b rest, ts ≠ .version v b :: rest) :
+    runV2dgIn c ts = .keyOnly ∨ runV2dgIn c ts = .nothing := by
+  cases ts with
+  | nil => exact Or.inr rfl
+  | cons t rest =>
+    cases t with
+    | version v b => exact absurd rfl (h v b rest)
+    | _ => exact Or.inl rfl
+
 /-- The hypothesis-free statement is not vacuous: a well-formed exchange does deliver. -/
 example : Ev.cb .getaddr ∈ (run ⟨true, 70016, false, false, false⟩
     [.version 70015 false, .msg .verack, .msg .getaddr]).2 := by decide
